@@ -1044,7 +1044,12 @@ validate_openssh_certificate = Spec(
 # K: the task that runs code of auth object A is the one recorded in A._coro, so Auth.cancel() stops it.
 # ====================================================================================================
 TASK = {'ghost_coro': 'opaque:Coro'}          # ghost: the coroutine object the task runs
-BOOK_FIELDS = {'_conn': 'obj:Conn', '_coro': 'opt[obj:Task]', '_username': 'str', '_method': 'bytes'}
+# ghost_stopped (on the auth object): the coroutines whose tasks this object has cancelled so far, in order.  The
+# contracts of Auth.cancel / Auth.create_task are stated over this STATE (not over the event log), so that callers
+# can use them through contract_stub.
+STOPPED = 'seq[opaque:Coro]'
+BOOK_FIELDS = {'_conn': 'obj:Conn', '_coro': 'opt[obj:Task]', '_username': 'str', '_method': 'bytes',
+               'ghost_stopped': STOPPED}
 BOOK_CLASSES = dict({'ServerAuth': BOOK_FIELDS, 'Conn': {}, 'Task': TASK}, **PACKET_CLASSES)
 
 
@@ -1061,27 +1066,37 @@ conn_ensure_future_stub.modifies = ()
 
 
 def task_cancel_stub(cx):
-    return [Out(event=('task_cancel', (cx.recv,)))]
+    """Task.cancel(): ghost-log the cancelled task's coroutine in the auth object's register"""
+    ex, st = cx.ex, cx.st
+    reg = ex.get_field(st, ex.self_ref, 'ghost_stopped')
+    co = ex.get_field(st, cx.recv, 'ghost_coro').z
+    return [Out(osets=[(ex.self_ref, 'ghost_stopped', VSeq(z3.Concat(reg.z, z3.Unit(co)), 'opaque:Coro'))],
+                event=('task_cancel', (cx.recv,)))]
 
 
-task_cancel_stub.modifies = ()
+task_cancel_stub.modifies = ('ghost_stopped',)
+
+
+def stopped_old_task(c):
+    """the register grew by exactly the coroutine of the task recorded at entry (if there was one)"""
+    n0, t0 = opt_parts(c.oldv('_coro'))
+    r0, r1 = c.old('ghost_stopped'), c.new('ghost_stopped')
+    if t0 is None:
+        return r1 == r0
+    co = c.ex.get_field(c.old_state, t0, 'ghost_coro').z
+    return z3.If(n0, r1 == r0, r1 == z3.Concat(r0, z3.Unit(co)))
 
 
 def cancel_post(c):
     """after cancel() the object counts as cancelled (_coro is None) and the task it had was really cancelled"""
-    n0, t0 = opt_parts(c.oldv('_coro'))
     n1, _ = opt_parts(c.newv('_coro'))
-    evs = c.events('task_cancel')
-    if t0 is None:
-        return z3.And(n1, z3.BoolVal(not evs))
-    hit = z3.BoolVal(len(evs) == 1 and evs[0][1][0].addr == t0.addr)
-    return z3.And(n1, z3.If(n0, z3.BoolVal(not evs), hit))
+    return z3.And(n1, stopped_old_task(c))
 
 
 auth_cancel = Spec(
     PROP, 'auth', 'Auth.cancel', self_class='ServerAuth', classes=BOOK_CLASSES,
     stubs={'Task.cancel': task_cancel_stub},
-    modifies=['_coro'],
+    modifies=['_coro', 'ghost_stopped'],
     ensures=[('cancel-stops-the-recorded-task', cancel_post)])
 
 
@@ -1094,18 +1109,14 @@ def tracks(c, co):
 
 
 def create_task_post(c):
-    n0, t0 = opt_parts(c.oldv('_coro'))
-    evs = c.events('task_cancel')
-    old_stopped = z3.BoolVal(True) if t0 is None else \
-        z3.Or(n0, z3.BoolVal(len(evs) == 1 and evs[0][1][0].addr == t0.addr))
-    return z3.And(old_stopped, tracks(c, c.arg('coro')))
+    return z3.And(stopped_old_task(c), tracks(c, c.arg('coro')))
 
 
 auth_create_task = Spec(
     PROP, 'auth', 'Auth.create_task', self_class='ServerAuth', params=dict(coro='opaque:Coro'),
     classes=BOOK_CLASSES,
     stubs={'self.cancel': contract_stub(lambda: auth_cancel), 'Conn.create_task': conn_ensure_future_stub},
-    modifies=['_coro'],
+    modifies=['_coro', 'ghost_stopped'],
     ensures=[('previous-task-stopped-and-new-task-recorded', create_task_post)])
 
 auth_init = Spec(
